@@ -360,6 +360,28 @@ func checkC18(c *hx.Ctx) {
 		jobs = append(jobs, job{[]interface{}{map[string]interface{}{"action": "add-public-keys", "publicKeys": mkKeys(keyViol[i%len(keyViol)].f)}, map[string]interface{}{"action": "add-services", "services": mkSvcs(v.f)}},
 			"key-and-service-rule", "key " + keyViol[i%len(keyViol)].name + " + service " + v.name, nil})
 	}
+	// every printable ASCII character outside [A-Za-z0-9_-] at the start, in the middle and at the end of key and service ids
+	for ch := 0x20; ch < 0x7f; ch++ {
+		cs := string(rune(ch))
+		if idRe.MatchString(cs) {
+			continue
+		}
+		for pi, id := range []string{cs + "ab", "a" + cs + "b", "ab" + cs} {
+			id := id
+			kf := func(e map[string]interface{}) { e["id"] = id }
+			switch (ch + pi) % 3 {
+			case 0:
+				jobs = append(jobs, job{[]interface{}{map[string]interface{}{"action": "add-public-keys", "publicKeys": mkKeys(kf)}}, "id-charset", fmt.Sprintf("key id %q", id), nil})
+				jobs = append(jobs, job{[]interface{}{patchReplace(nil, mkSvcs(kf))}, "id-charset", fmt.Sprintf("service id %q in replace", id), nil})
+			case 1:
+				jobs = append(jobs, job{[]interface{}{map[string]interface{}{"action": "add-services", "services": mkSvcs(kf)}}, "id-charset", fmt.Sprintf("service id %q", id), nil})
+				jobs = append(jobs, job{[]interface{}{patchRemoveKeys("ok", id)}, "id-charset", fmt.Sprintf("removed key id %q", id), nil})
+			default:
+				jobs = append(jobs, job{[]interface{}{patchReplace(mkKeys(kf), nil)}, "id-charset", fmt.Sprintf("key id %q in replace", id), nil})
+				jobs = append(jobs, job{[]interface{}{map[string]interface{}{"action": "remove-services", "ids": []interface{}{id}}}, "id-charset", fmt.Sprintf("removed service id %q", id), nil})
+			}
+		}
+	}
 	// duplicates
 	jobs = append(jobs,
 		job{[]interface{}{map[string]interface{}{"action": "add-public-keys", "publicKeys": []interface{}{goodKey("dup"), goodKey("x"), goodKey("dup")}}}, "duplicate-id", "duplicate key id", nil},
@@ -393,6 +415,14 @@ func checkC18(c *hx.Ctx) {
 				must = "action " + act + " disabled"
 			}
 			jobs = append(jobs, job{[]interface{}{patchAddServices(goodSvc("first")), pt}, "action-enablement", must, &pp})
+		}
+	}
+	// an empty or absent allow-list enables nothing
+	for act, pt := range samples {
+		for _, empty := range [][]string{{}, nil} {
+			pp := base
+			pp.Patches = empty
+			jobs = append(jobs, job{[]interface{}{pt}, "action-enablement-empty-list", "action " + act + " with an empty allow-list", &pp})
 		}
 	}
 	// ---------- (2) RFC 6902: exhaustive single operations
@@ -508,6 +538,8 @@ func checkC18(c *hx.Ctx) {
 		c.Floor(k, 4)
 	}
 	c.Floor("accepted:valid-boundary", 2)
+	c.Floor("rejected:id-charset", 150)
+	c.Floor("rejected:action-enablement-empty-list", 16)
 	c.Floor("applied_ok", 500)
 	c.Floor("applied_err", 500)
 	for _, k := range kinds {
